@@ -2,6 +2,7 @@ package node
 
 import (
 	"bufio"
+	"errors"
 	"fmt"
 	"io"
 	"log"
@@ -12,6 +13,8 @@ import (
 	"github.com/chzyer/readline"
 	"github.com/paulsonkoly/calc/combinator"
 	"github.com/paulsonkoly/calc/flags"
+	"github.com/paulsonkoly/calc/lexer"
+	"github.com/paulsonkoly/calc/types/token"
 	"github.com/paulsonkoly/calc/vm"
 )
 
@@ -68,9 +71,6 @@ type Parser interface {
 
 // Loop is the repl-loop.
 func Loop(r lineReader, p Parser, vm *vm.Type, doOut bool) {
-	blocksOpen := 0
-	quotesOpen := 0
-	bracketsOpen := 0
 	input := ""
 	sep := ""
 
@@ -80,18 +80,38 @@ func Loop(r lineReader, p Parser, vm *vm.Type, doOut bool) {
 			break
 		}
 
-		blocksOpen += strings.Count(line, "{") - strings.Count(line, "}")
-		quotesOpen += strings.Count(line, "\"") - strings.Count(line, "\\\"")
-		bracketsOpen += strings.Count(line, "[") - strings.Count(line, "]")
 		input += sep + line
 		sep = "\n"
 
-		if blocksOpen == 0 && quotesOpen%2 == 0 && bracketsOpen == 0 {
+		if complete(input) {
 			processInput(input, p, vm, doOut)
 			sep = ""
 			input = ""
 		}
 	}
+}
+
+// complete tells if input is a whole statement: no block, array literal or
+// string literal is left open. Only tokens count, not the characters inside
+// string literals and comments.
+func complete(input string) bool {
+	open := 0
+	l := lexer.NewLexer(input)
+	for l.Next() {
+		if l.Err != nil {
+			return !errors.Is(l.Err, lexer.ErrUnterminatedString)
+		}
+		if l.Token.Type != token.NotSticky {
+			continue
+		}
+		switch l.Token.Value {
+		case "{", "[":
+			open++
+		case "}", "]":
+			open--
+		}
+	}
+	return open <= 0
 }
 
 func processInput(input string, p Parser, vm *vm.Type, doOut bool) {
